@@ -144,7 +144,7 @@ class LinSpaceBuilder(ProgramBuilder):
         factors = []
         bases = []
         for value in voltages:
-            if isinstance(value, float):
+            if not isinstance(value, SimpleExpression):
                 bases.append(value)
                 factors.append(None)
                 continue
